@@ -56,7 +56,7 @@ BETWEEN = tuple(f"0;255;3;0;{t};x\n" for t in range(0, 34) if t != 2) + tuple(f"
     # what the application does after the failed flush: asks the node for the state it failed to switch, sends other commands,
     # saves and reloads the registry (node objects are replaced)
     "@send-req", "@send-req-ack", "@send-internal", "@reload", "@save",
-) + tuple(f"@send-internal:{t}" for t in range(0, 34) if t != 18) + (
+) + tuple(f"@send-internal:{t}" for t in range(0, 34) if t != 18) + ("@tick:3601", "@tick:86400", "@tick:4000000") + (
     # every internal message of the sleeping nodes themselves that is not their wake announcement (22 under 2.0/2.1, 32 under 2.2)
 ) + tuple(f"{n};255;3;0;{t};{p}\n" for n in (1, 2) for t in range(0, 34) if t not in (2, 22, 32) for p in ("500",))
 
@@ -243,6 +243,9 @@ async def _app_event(name: str, gateway, parked: list, info: dict) -> Outcome | 
             status, value = await env.send(gateway, env.mk_message([n, c, 2, 1 if name.endswith("ack") else 0, t, ""]))
             if status == "leak":
                 return fail(f"leak:{env.exc_sig(value)}", f"send of a value request for ({n},{c},{t}) raised {value!r}")
+    elif name.startswith("@tick"):
+        # hours or days pass (on the process clock and the loop clock) before the node wakes again
+        info["clock"].advance(float(name.split(":")[1]))
     elif name.startswith("@send-internal"):
         # an internal command of the application to the sleeping nodes (heartbeat request by default; any type after a colon)
         mtype = int(name.split(":")[1]) if ":" in name else 18
@@ -569,8 +572,11 @@ def run_case(case: dict) -> Outcome:
         return None
 
     try:
-        bad = env.run(go())
+        with env.FakeClock() as clock:
+            info["clock"] = clock
+            bad = env.run(go())
     finally:
+        info.pop("clock", None)
         if info.get("tmpdir"):
             import shutil
 
